@@ -63,7 +63,11 @@ OUTSIDE = ['ScaledAsset with a window narrower than its base asset (KF-C08-scale
 
 def cases(tier, seed):
     lst = THOROUGH if tier == 'thorough' else QUICK
-    return [(cid, dict(kw)) for cid, kw in lst]
+    out = [(cid, dict(kw)) for cid, kw in lst]
+    # sequences of calls on the same objects (decided with C10's history machinery: the final problem equals that of fresh objects)
+    # -- fixed costs of a scaled asset count over ITS window also in the second set-up on the same grid object
+    out.append(('history_scaled_asset_with_own_window_set_up_again', common.delegated('c10', pf='wrappers', final='h', histories=[['same'], ['costs']])))
+    return out
 
 
 # ------------------------------------------------------------------------------------------------ scaled
